@@ -17,7 +17,19 @@ def iso(sec):
 
 
 def from_iso(s):
-    return int((datetime.datetime.strptime(s, "%Y-%m-%dT%H:%M:%S") - BASE).total_seconds())
+    """seconds relative to BASE — computed by the extracted Cal.v (gen/timeconv.py), not by Python's datetime"""
+    from . import timeconv
+    v = timeconv.rel(s)
+    if v is None:
+        raise ValueError("DateTime::new panics on %r (Cal.parse_datetime)" % (s,))
+    return v
+
+
+def time_token(s):
+    """token of a time for the driver: seconds, or TPANIC where the loader's DateTime::new panics"""
+    from . import timeconv
+    v = timeconv.rel(s)
+    return "TPANIC" if v is None else v
 
 
 def gen_instance(rng, profile=None):
@@ -248,6 +260,8 @@ def encode(inst, perm=None):
     """Encoding for the OCaml driver: the instance as listed, every reference still an identifier (strings interned as
     integers — the only thing done here); the resolution of the references is RawLoad.resolve, in Coq."""
     ids = {}
+    from . import timeconv
+    timeconv.prime(timeconv.times_of_instance(inst))
 
     def I(x):
         return ids.setdefault(x, len(ids) + 1000)
@@ -279,14 +293,14 @@ def encode(inst, perm=None):
     for d in inst["departures"]:
         out += [I(d["route"]), len(d["segments"])]
         for g in d["segments"]:
-            out += [I(g["routeSegment"]), from_iso(g["departure"]), g["passengers"], g["seated"]]
+            out += [I(g["routeSegment"]), time_token(g["departure"]), g["passengers"], g["seated"]]
     slots = inst.get("maintenanceSlots")
     if slots is None:
         out.append(-1)
     else:
         out.append(len(slots))
         for g in slots:
-            out += [I(g["location"]), from_iso(g["start"]), from_iso(g["end"]), g["trackCount"]]
+            out += [I(g["location"]), time_token(g["start"]), time_token(g["end"]), g["trackCount"]]
     dh = inst["deadHeadTrips"]
     out.append(len(dh["indices"]))
     out += [I(x) for x in dh["indices"]]
